@@ -107,6 +107,15 @@ func (c *Conn) Read(p []byte) (int, error) {
 }
 
 func (c *Conn) Write(p []byte) (int, error) {
+	// a write to the network is a visible action: under the controlled scheduler it is a scheduling
+	// point, so that two goroutines writing to one connection (a publisher pushing a message, the
+	// connection's own handler writing a reply, a publisher of another channel) interleave write by
+	// write - a frame sent with two Write calls can be split by another writer
+	if rt.CurMode == rt.Controlled {
+		if w := rt.W; w != nil && w.Cur != nil && !w.Dead() {
+			w.Point(rt.Op{Kind: rt.OpYield, Obj: c})
+		}
+	}
 	c.mu.Lock()
 	defer c.mu.Unlock()
 	if c.closed || c.failW {
